@@ -479,6 +479,31 @@ func c09Line(work, line string, yml bool, tag string, lineNo int, r *rng, every,
 				esHi[i-1] = math.Exp(-qeff * tiefe)
 				esLo[i-1] = math.Exp(-qeff * (tiefe - pre.DZ.Num))
 			}
+			// ---- radia(): shadow copy with recorder vs the real kernel (hook VerifRadia), on the state PhytoOut hands it ----
+			var rrec radiaRec
+			radiaOK := true
+			var rGPHOT, rMAINT float64
+			if grown {
+				gs, gr := pre, pre
+				gs.INTWICK, gr.INTWICK = g.INTWICK, g.INTWICK // the stage index after today's advance (DRYSWELL lookup)
+				if gs.LAI <= 0 {
+					gs.LAI, gr.LAI = 0.001, 0.001
+				}
+				ls, lr := lPre, lPre
+				a1, a2, a3, a4 := radiaShadow(&gs, &ls, int(reflect.ValueOf(lPre).FieldByName("temptyp").Int()), &rrec)
+				b1, b2, b3, b4 := hermes.VerifRadia(&gr, &lr)
+				rGPHOT, rMAINT = b3, b4
+				radiaOK = sameF(a1, b1) && sameF(a2, b2) && sameF(a3, b3) && sameF(a4, b4) && sameFs(ls.MANT[:], lr.MANT[:]) &&
+					sameF(gs.SUND[gs.TAG.Index], gr.SUND[gr.TAG.Index]) && sameF(gs.PARi, gr.PARi) && sameF(gs.RADSUM, gr.RADSUM) && sameF(gs.PARSUM, gr.PARSUM)
+				// and the real kernel agrees with the run: GPPdaily = GPHOT*12/30/10 (crop.go:218)
+				if radiaOK && !sameF(b3*12/30/10, g.GPPdaily) {
+					radiaOK = false
+				}
+				if !radiaOK {
+					emit(jobj{"k": "mirror-mismatch", "line": lineNo, "zeit": zeit, "what": "radia() shadow / hook / run disagree"})
+					return
+				}
+			}
 			tendsum := reflect.ValueOf(shadow).FieldByName("tendsum").Float()
 			maxup := c09Maxup(ct, g.PHYLLO, tendsum)
 			wurz := g.WURZ
@@ -676,6 +701,10 @@ func c09Line(work, line string, yml bool, tag string, lineNo int, r *rng, every,
 				// root distribution block (RootDistModel): effective Qrez, exponentials per layer, observed root shares
 				"r_ok": rootOK, "r_pi": hx(math.Pi), "r_hi": hxs(esHi), "r_lo": hxs(esLo), "r_o_wuant": hxs(g.WUANT[:wurzN]),
 				"r_wumalt": hx(pre.WUMAS), "r_wugeh": hx(pre.WUGEH),
+				// assimilation kernel of radia() (CropNModel.assim_of): recorded locals of the shadow, results of the real kernel
+				"a_ok": rrec.Reached, "a_rad": hx(rrec.RAD), "a_sund": hx(rrec.SUND), "a_dle": hx(rrec.DLE), "a_dgac": hx(rrec.DGAC), "a_dgao": hx(rrec.DGAO),
+				"a_drc": hx(rrec.DRC), "a_trrel": hx(rrec.TRREL), "a_vswell": hx(rrec.VSWELL), "a_mpot": hx(rrec.MAINTPOT), "a_cold": rrec.COLD,
+				"a_o_gphot": hx(rGPHOT), "a_o_maint": hx(rMAINT), "a_dl": hx(rrec.DL),
 				// reduk
 				"gehob": hx(pre.GEHOB), "gehmin": hx(g.GEHMIN), "ngefkt1": pre.NGEFKT == 1, "earg": hx(eArg), "e": hx(eVal), "reduk0": hx(pre.REDUK), "o_reduk": hx(g.REDUK),
 				// organs
